@@ -196,6 +196,32 @@ pub fn main(args: &[String]) {
                 }
             }
         }
-        _ => panic!("c13 build|gen <file>"),
+        "isprime" => {
+            // Modulus::is_prime (the flag computed by Modulus::new) and util::is_prime for the listed values
+            let f = std::io::BufReader::new(std::fs::File::open(&args[1]).unwrap());
+            for line in f.lines() {
+                let v: u64 = line.unwrap().trim().parse().unwrap();
+                let r = guarded(|| {
+                    let m = Modulus::new(v);
+                    (m.is_prime(), heathcliff::util::is_prime(&m))
+                });
+                match r {
+                    Ok((a, b)) => println!("{}", json!({"ev": "isprime", "v": v.to_string(), "flag": a, "direct": b, "panic": false})),
+                    Err(e) => println!("{}", json!({"ev": "isprime", "v": v.to_string(), "flag": false, "direct": false, "panic": true, "detail": e})),
+                }
+            }
+        }
+        "defaults" => {
+            // CoeffModulus::max_bit_count / bfv_default for every standard and some non-standard degrees
+            for n in [512usize, 1024, 2048, 4096, 8192, 16384, 32768, 65536, 3000, 0] {
+                for (sn, sl) in [("none", SecurityLevel::None), ("tc128", SecurityLevel::Tc128), ("tc192", SecurityLevel::Tc192), ("tc256", SecurityLevel::Tc256)] {
+                    let mb = guarded(|| CoeffModulus::max_bit_count(n, sl));
+                    let d = guarded(|| CoeffModulus::bfv_default(n, sl).iter().map(|m| m.value()).collect::<Vec<u64>>());
+                    println!("{}", json!({"ev": "default", "n": n, "sec": sn, "maxbits": mb.clone().unwrap_or(usize::MAX) as u64, "maxbits_panic": mb.is_err(),
+                        "panic": d.is_err(), "primes": d.unwrap_or_default().iter().map(|x| x.to_string()).collect::<Vec<_>>()}));
+                }
+            }
+        }
+        _ => panic!("c13 build|gen|isprime <file>|defaults"),
     }
 }
